@@ -1,7 +1,8 @@
 SPECIFICATION Spec
 CONSTANTS
-  Alphabet = {"doctype", "dq", "sq", "gt", "x", "nul"}
-  MaxLen = 4
+  Prefixes = {"doctype"}
+  Alphabet = {"dq", "sq", "gt", "x", "nul"}
+  MaxLen = 3
   Emit = FALSE
   VoidClosesTag = TRUE
   NameStopNeedsGt = TRUE
